@@ -217,6 +217,13 @@ def a_storage(draw, cx, name, two_nodes=None, mip=False, blocks=False, node=None
     a["start"], a["end"] = window(draw, cx, p_none=0.7)
     if mip:
         a["no_simult"] = draw(st.booleans())
+        if a["no_simult"] and draw(st.booleans()):
+            # unequal rates in either direction (the two row sets of the option carry different capacities)
+            f = draw(st.sampled_from([2.0, 4.0]))
+            if draw(st.booleans()):
+                a["cap_in"] = a["cap_out"] * f
+            else:
+                a["cap_out"] = a["cap_in"] * f
         if draw(st.booleans()) and a["start_level"] == 0 and a["inflow"] == 0:
             a["max_store_duration"] = (draw(st.integers(1, 4)) + 0.5) * cx.dt0
     if blocks:
